@@ -88,7 +88,7 @@ sites! {
     SCHED_BEFORE_STEAL = 61,
     SCHED_COLLECT = 62,
     TIMER_FIRE = 63,
-    TIMER_FIRE_EMPTY = 64,
+    TIMER_FIRE_TOOK = 64,
     JOIN_TRIGGER_STORED = 65,
     JOIN_WAIT_REGISTERED = 66,
     CANCEL_BIT_SET = 67,
@@ -107,7 +107,6 @@ sites! {
     PARK_RESUMED = 82,
     PARK_AFTER_CLEAR = 83,
     // may::timeout_list
-    TL_ADD_PUSHED = 85,
     TL_INSTALL_BH = 86,
     TL_SCHED_POPPED = 87,
     TL_SCHED_REPUSH = 88,
@@ -163,7 +162,7 @@ sites! {
     CH_MPSC_SEND_PUSHED = 150,
     CH_MPSC_RECV_REGISTERED = 151,
     CH_MPSC_TRY_EMPTY = 152,
-    CH_MPSC_DROPCHAN_SUBBED = 153,
+    CH_MPSC_DROPCHAN_BEFORE = 153,
     CH_MPSC_DROPPORT_FLAGGED = 154,
     // may::sync::spsc
     CH_SPSC_SEND_PUSHED = 160,
@@ -194,28 +193,43 @@ sites! {
     IO_WRITE_SUB_ARMED = 204,
     IO_WRITE_SUB_STORED = 205,
     IO_WRITEV_EAGAIN = 206,
-    IO_WRITEV_SUB_STORED = 207,
-    IO_PEEK_EAGAIN = 208,
-    IO_PEEK_SUB_STORED = 209,
-    IO_ACCEPT_EAGAIN = 210,
-    IO_ACCEPT_SUB_STORED = 211,
-    IO_CONNECT_SUB_STORED = 212,
-    IO_UDP_RECV_EAGAIN = 213,
-    IO_UDP_RECV_SUB_STORED = 214,
-    IO_UDP_SEND_EAGAIN = 215,
-    IO_UDP_SEND_SUB_STORED = 216,
-    IO_UNIX_ACCEPT_SUB_STORED = 217,
-    IO_UNIX_RECV_SUB_STORED = 218,
-    IO_UNIX_SEND_SUB_STORED = 219,
-    IO_UNIX_CONNECT_SUB_STORED = 220,
-    IO_WAITIO_SUB_STORED = 221,
-    EP_AFTER_WAIT = 230,
-    EP_EVENT_FLAGGED = 231,
-    EP_EVENT_TOOK = 232,
-    EP_BEFORE_TIMERS = 233,
-    EP_ADD_TIMER_PUSHED = 234,
-    IO_TIMEOUT_HANDLER_ENTER = 235,
-    IO_TIMEOUT_TIMER_TAKEN = 236,
-    IO_SCHEDULE_TOOK = 237,
-    IO_CANCEL_TOOK = 238,
+    IO_WRITEV_SUB_ARMED = 207,
+    IO_WRITEV_SUB_STORED = 208,
+    IO_PEEK_EAGAIN = 209,
+    IO_PEEK_SUB_ARMED = 210,
+    IO_PEEK_SUB_STORED = 211,
+    IO_ACCEPT_EAGAIN = 212,
+    IO_ACCEPT_SUB_ARMED = 213,
+    IO_ACCEPT_SUB_STORED = 214,
+    IO_CONNECT_EAGAIN = 215,
+    IO_CONNECT_SUB_ARMED = 216,
+    IO_CONNECT_SUB_STORED = 217,
+    IO_UDP_RECV_EAGAIN = 218,
+    IO_UDP_RECV_SUB_ARMED = 219,
+    IO_UDP_RECV_SUB_STORED = 220,
+    IO_UDP_SEND_EAGAIN = 221,
+    IO_UDP_SEND_SUB_ARMED = 222,
+    IO_UDP_SEND_SUB_STORED = 223,
+    IO_UNIX_ACCEPT_EAGAIN = 224,
+    IO_UNIX_ACCEPT_SUB_ARMED = 225,
+    IO_UNIX_ACCEPT_SUB_STORED = 226,
+    IO_UNIX_RECV_EAGAIN = 227,
+    IO_UNIX_RECV_SUB_ARMED = 228,
+    IO_UNIX_RECV_SUB_STORED = 229,
+    IO_UNIX_SEND_EAGAIN = 230,
+    IO_UNIX_SEND_SUB_ARMED = 231,
+    IO_UNIX_SEND_SUB_STORED = 232,
+    IO_UNIX_CONNECT_EAGAIN = 233,
+    IO_UNIX_CONNECT_SUB_ARMED = 234,
+    IO_UNIX_CONNECT_SUB_STORED = 235,
+    IO_WAITIO_SUB_STORED = 236,
+    EP_AFTER_WAIT = 240,
+    EP_EVENT_FLAGGED = 241,
+    EP_EVENT_TOOK = 242,
+    EP_BEFORE_TIMERS = 243,
+    EP_ADD_TIMER_PUSHED = 244,
+    IO_TIMEOUT_HANDLER_ENTER = 245,
+    IO_TIMEOUT_TIMER_TAKEN = 246,
+    IO_SCHEDULE_TOOK = 247,
+    IO_CANCEL_TOOK = 248,
 }
